@@ -48,6 +48,7 @@ ASSUMPTIONS = ['strengths are dyadic rationals, so float sums/products in tenpy 
                'operator names are opaque at the formal level (equal formal sums ⇒ equal operators, not conversely)']
 
 N_PROCS = min(12, os.cpu_count() or 1)
+ANCHOR_COVERAGE_NOTE = 'pending'
 
 
 def nontrivial(case):
@@ -132,6 +133,11 @@ def work_chunk(args):
     for n, case in enumerate(cases):
         rec = {'case': case, 'fails': [], 'facts': {}, 'skipped': None}
         out.append(rec)
+        if case.get('kind') == 'api':
+            # API scenario with its own dense oracle (no Lean side)
+            from harness import c10_api
+            rec['fails'], rec['facts'] = c10_api.run_case(case)
+            continue
         try:
             real = c10_check.real_side(case)
         except c10_check.TooLarge:
@@ -200,14 +206,22 @@ def run_cases(ctx, cases, use_model=True, res=None):
             if rec['skipped']:
                 res.count('skipped=' + rec['skipped'])
                 continue
-            res.note_case(case, nontrivial(case) if case.get('kind', 'coupling') == 'coupling' else True)
-            for h in (case_hist(case) if case.get('kind', 'coupling') == 'coupling' else ['zoo=' + case.get('model', '?')]):
+            kind = case.get('kind', 'coupling')
+            res.note_case(case, nontrivial(case) if kind == 'coupling' else True)
+            if kind == 'coupling':
+                hist = case_hist(case)
+            elif kind == 'api':
+                hist = ['api_scenario=' + case.get('name', '?')]
+            else:
+                hist = ['zoo=' + case.get('model', '?')]
+            for h in hist:
                 res.count(h)
             for k, v in rec['facts'].items():
-                if k.startswith('rep.') or k in ('lean_dense', 'bonds', 'herm_formal', 'herm_oracle', 'spec_ok'):
+                if k.startswith('rep.') or k.startswith('api.') or k.startswith('nn_infinite') or \
+                        k in ('lean_dense', 'bonds', 'herm_formal', 'herm_oracle', 'spec_ok', 'bond_energies_finite'):
                     if v:
                         res.count(k)
-            if use_model:
+            if use_model and kind != 'api':
                 res.traces_validated += 1
             for kind, sig, detail in rec['fails']:
                 c = rec.get('shrunk', {}).get(sig, case)
@@ -257,6 +271,12 @@ def run(ctx):
         done += n
         k += 1
     res.extra['generated_models'] = done
+    # API scenarios (public methods / options outside the generated coupling models; dense oracles only)
+    from harness import c10_api
+    n_api = 80 if ctx.quick else 1200
+    run_cases(ctx, c10_api.gen_cases(ctx.sub_rng('api'), n_api), True, res)
+    res.extra['api_scenarios'] = n_api
+    res.extra['anchor_coverage_note'] = ANCHOR_COVERAGE_NOTE
     return res
 
 
